@@ -193,6 +193,7 @@ struct WorkerStats {
   std::vector<std::string> samples;  // plan json
   std::vector<uint64_t> viol_seeds;
   std::vector<uint64_t> viol_index;
+  std::vector<uint64_t> viol_start;  // first index run by the same process
   std::string infra_msg;
 };
 
@@ -218,7 +219,7 @@ static void serialize_stats(const WorkerStats& w, int fd) {
   for (auto& kv : w.policies) { snprintf(b, sizeof b, "policy %llu %s\n", (unsigned long long)kv.second, kv.first.c_str()); o += b; }
   for (auto& kv : w.known_hits) { snprintf(b, sizeof b, "knownhit %llu %s\n", (unsigned long long)kv.second, kv.first.c_str()); o += b; }
   for (auto& s : w.samples) { o += "sample "; o += s; o += "\n"; }
-  for (size_t i = 0; i < w.viol_index.size(); i++) { snprintf(b, sizeof b, "viol %llu\n", (unsigned long long)w.viol_index[i]); o += b; }
+  for (size_t i = 0; i < w.viol_index.size(); i++) { snprintf(b, sizeof b, "viol %llu %llu\n", (unsigned long long)w.viol_index[i], (unsigned long long)w.viol_start[i]); o += b; }
   if (!w.infra_msg.empty()) { o += "inframsg "; o += w.infra_msg; o += "\n"; }
   o += "hashes ";
   snprintf(b, sizeof b, "%zu\n", w.hashes.size());
@@ -232,7 +233,7 @@ static void serialize_stats(const WorkerStats& w, int fd) {
   }
 }
 
-static void account(WorkerStats& st, std::unordered_set<uint64_t>& seen, const RunSpec& s, const RunResult& r, uint64_t index, bool in_chunk_pos0) {
+static void account(WorkerStats& st, std::unordered_set<uint64_t>& seen, const RunSpec& s, const RunResult& r, uint64_t index, uint64_t proc_start) {
   st.runs++;
   st.steps += r.steps; st.switches += r.switches; st.vtime_s += (double)r.vtime_ns * 1e-9;
   for (auto& kv : r.probes) st.probes[kv.first] += kv.second;
@@ -251,7 +252,7 @@ static void account(WorkerStats& st, std::unordered_set<uint64_t>& seen, const R
     case 1: {
       size_t ki;
       if (is_known(r, &ki)) { st.known++; st.known_hits[O.known[ki].desc]++; }
-      else { st.viol++; st.viol_index.push_back(index); }
+      else { st.viol++; st.viol_index.push_back(index); st.viol_start.push_back(proc_start); }
       break;
     }
     default:
@@ -259,7 +260,6 @@ static void account(WorkerStats& st, std::unordered_set<uint64_t>& seen, const R
       if (st.infra_msg.empty()) { char b[64]; snprintf(b, sizeof b, "index %llu: ", (unsigned long long)index); st.infra_msg = b + r.site + " " + r.msg; }
       break;
   }
-  (void)in_chunk_pos0;
 }
 
 static int g_chunk = 40;
@@ -288,7 +288,7 @@ static void worker_loop(int w, int jobs, double t_end, int out_fd) {
     while (pos < specs.size() && !stop) {
       std::vector<RunResult> rs = run_many(&specs[pos], specs.size() - pos);
       if (rs.empty()) { stop = true; break; }
-      for (size_t j = 0; j < rs.size(); j++) account(st, seen, specs[pos + j], rs[j], O.first_index + lo + pos + j, j == 0);
+      for (size_t j = 0; j < rs.size(); j++) account(st, seen, specs[pos + j], rs[j], O.first_index + lo + pos + j, O.first_index + lo + pos);
       pos += rs.size();
       if (st.viol >= 1 || st.infra >= 3) stop = true;
       if (!O.max_runs && wall_now() >= t_end) stop = true;
@@ -326,7 +326,11 @@ static void merge_stats(const std::string& txt, WorkerStats& m, std::unordered_s
       std::string name = line.substr(sp2 + 1);
       (line[0] == 'p' && line[1] == 'r' ? m.probes : line[0] == 'f' ? m.faults : line[0] == 'k' ? m.known_hits : m.policies)[name] += n;
     } else if (line.compare(0, 7, "sample ") == 0) m.samples.push_back(line.substr(7));
-    else if (line.compare(0, 5, "viol ") == 0) m.viol_index.push_back(strtoull(line.c_str() + 5, nullptr, 10));
+    else if (line.compare(0, 5, "viol ") == 0) {
+      unsigned long long a = 0, b2 = 0;
+      sscanf(line.c_str() + 5, "%llu %llu", &a, &b2);
+      m.viol_index.push_back(a); m.viol_start.push_back(b2);
+    }
     else if (line.compare(0, 9, "inframsg ") == 0) { if (m.infra_msg.empty()) m.infra_msg = line.substr(9); }
     else if (line.compare(0, 7, "hashes ") == 0) {
       size_t n = strtoull(line.c_str() + 7, nullptr, 10);
@@ -341,6 +345,7 @@ static void merge_stats(const std::string& txt, WorkerStats& m, std::unordered_s
 
 // ---------------------------------------------------------------------------
 // replay files
+static std::vector<uint64_t> g_prelude;  // see run_final
 static std::string decs_to_json(const std::vector<Dec>& d) {
   std::string o = "[";
   char b[128];
@@ -360,10 +365,13 @@ static std::string make_replay_json(const RunResult& r, const std::string& plan_
   o += " \"class\": " + json::quote(r.cls) + ",\n";
   o += " \"site\": " + json::quote(r.site) + ",\n";
   o += " \"message\": " + json::quote(r.msg) + ",\n";
-  snprintf(b, sizeof b, " \"seed\": %llu,\n \"sched_seed\": %llu,\n \"found_by_seed\": %llu,\n \"event_hash\": \"%llu\",\n", (unsigned long long)seed, (unsigned long long)sched_seed, (unsigned long long)orig_seed, (unsigned long long)r.hash);
+  snprintf(b, sizeof b, " \"seed_str\": \"%llu\",\n \"sched_seed_str\": \"%llu\",\n \"found_by_seed\": \"%llu\",\n \"event_hash\": \"%llu\",\n", (unsigned long long)seed, (unsigned long long)sched_seed, (unsigned long long)orig_seed, (unsigned long long)r.hash);
   o += b;
   snprintf(b, sizeof b, " \"original_ops\": %zu,\n \"original_decisions\": %zu,\n", orig_ops, orig_decs);
   o += b;
+  o += " \"prelude_seeds\": [";
+  for (size_t i = 0; i < g_prelude.size(); i++) { snprintf(b, sizeof b, "%s\"%llu\"", i ? "," : "", (unsigned long long)g_prelude[i]); o += b; }
+  o += "],\n";
   o += " \"plan\": " + plan_json + ",\n";
   if (decs) o += " \"decisions_format\": \"[thread, op_id, point_in_op, kind(0 run,1 commit,2 spurious wake,3 clock jump,4 choose), arg, arg2]\",\n \"decisions\": " + decs_to_json(*decs) + "\n";
   else o += " \"decisions\": null\n";
@@ -378,6 +386,7 @@ struct ReplayFile {
   uint64_t seed = 1, sched_seed = 0, hash = 0;
   std::string cls, site, property;
   int mode = -1;
+  std::vector<uint64_t> prelude;
 };
 
 static bool load_replay(const std::string& path, ReplayFile& rf) {
@@ -391,7 +400,7 @@ static bool load_replay(const std::string& path, ReplayFile& rf) {
   json::Value v;
   if (!json::parse(s, v)) return false;
   rf.cls = v.gets("class"); rf.site = v.gets("site"); rf.property = v.gets("property");
-  rf.seed = (uint64_t)v.geti("seed", 1); rf.sched_seed = (uint64_t)v.geti("sched_seed", 0);
+  rf.seed = strtoull(v.gets("seed_str", "1").c_str(), nullptr, 10); rf.sched_seed = strtoull(v.gets("sched_seed_str", "0").c_str(), nullptr, 10);
   rf.mode = (int)v.geti("mode", -1);
   rf.hash = strtoull(v.gets("event_hash", "0").c_str(), nullptr, 10);
   const json::Value* p = v.get("plan");
@@ -407,6 +416,8 @@ static bool load_replay(const std::string& path, ReplayFile& rf) {
     else if (s[i] == '}') { depth--; if (depth == 0) { end = i + 1; break; } }
   }
   if (!plan_from_json(s.substr(start, end - start), rf.plan, g_harness)) return false;
+  const json::Value* pre = v.get("prelude_seeds");
+  if (pre && pre->type == json::Value::ARR) for (auto& e : pre->a) rf.prelude.push_back(e.type == json::Value::STR ? strtoull(e.s.c_str(), nullptr, 10) : (uint64_t)e.i);
   const json::Value* d = v.get("decisions");
   if (d && d->type == json::Value::ARR) {
     rf.has_decs = true;
@@ -417,6 +428,28 @@ static bool load_replay(const std::string& path, ReplayFile& rf) {
     }
   }
   return true;
+}
+
+// ---------------------------------------------------------------------------
+// A run may depend on what earlier runs left behind in process-wide babylon
+// singletons. g_prelude lists the seeds of runs executed (in the same fresh
+// process) before the run of interest; empty = pristine process.
+static RunResult run_final(const RunSpec& final_spec) {
+  if (g_prelude.empty()) return run_one(final_spec);
+  std::vector<RunSpec> specs;
+  for (uint64_t sd : g_prelude) {
+    RunSpec s;
+    s.seed = sd;
+    s.gp.property = O.property.c_str(); s.gp.thorough = O.thorough; s.gp.mode = O.mode;
+    specs.push_back(s);
+  }
+  specs.push_back(final_spec);
+  std::vector<RunResult> v = run_many(specs.data(), specs.size());
+  if (v.size() == specs.size()) return v.back();
+  RunResult bad;
+  bad.status = 4; bad.cls = "infra"; bad.site = "prelude"; bad.msg = "a prelude run did not complete normally";
+  if (!v.empty() && v.back().status != 0) bad = v.back(), bad.status = 4;
+  return bad;
 }
 
 // ---------------------------------------------------------------------------
@@ -437,7 +470,7 @@ static bool plan_fails(const Plan& p, uint64_t base_seed, int tries, const std::
     s.sched_seed = j == 0 ? sched_seed_out : mix64(base_seed, 0x1000 + (uint64_t)j);
     if (s.sched_seed == 0) s.sched_seed = 1;
     s.gp.property = O.property.c_str(); s.gp.thorough = O.thorough; s.gp.mode = O.mode;
-    RunResult r = run_one(s);
+    RunResult r = run_final(s);
     g_min_runs++;
     if (same_class(r, cls, site)) { sched_seed_out = s.sched_seed; out = r; return true; }
   }
@@ -450,7 +483,7 @@ static bool decs_fail(const Plan& p, uint64_t seed, const MVec<Dec>& d, const st
   s.plan = &p;
   s.decisions = &d;
   s.gp.property = O.property.c_str(); s.gp.thorough = O.thorough; s.gp.mode = O.mode;
-  RunResult r = run_one(s);
+  RunResult r = run_final(s);
   g_min_runs++;
   if (same_class(r, cls, site)) { out = r; return true; }
   return false;
@@ -472,6 +505,24 @@ static Minimised minimise(const Plan& orig, uint64_t seed, const RunResult& firs
   const std::string cls = first.cls, site = first.site;
   const int TRIES = 12;
   g_min_runs = 0;
+  // drop prelude runs that are not needed (from the front, halving chunks)
+  if (!g_prelude.empty()) {
+    size_t chunk = g_prelude.size();
+    while (chunk >= 1 && !g_prelude.empty()) {
+      bool any = false;
+      for (size_t start = 0; start < g_prelude.size();) {
+        std::vector<uint64_t> keep = g_prelude, cand;
+        for (size_t i = 0; i < keep.size(); i++) if (i < start || i >= start + chunk) cand.push_back(keep[i]);
+        g_prelude = cand;
+        uint64_t ss = m.sched_seed; RunResult rr;
+        if (plan_fails(m.plan, seed, 1, cls, site, ss, rr)) { m.result = rr; any = true; }
+        else { g_prelude = keep; start += chunk; }
+      }
+      if (chunk == 1) break;
+      chunk = (chunk + 1) / 2;
+      (void)any;
+    }
+  }
   bool progress = true;
   while (progress && g_min_runs < (uint64_t)budget_runs) {
     progress = false;
@@ -518,7 +569,7 @@ static Minimised minimise(const Plan& orig, uint64_t seed, const RunResult& firs
     RunSpec s;
     s.seed = seed; s.plan = &m.plan; s.sched_seed = m.sched_seed; s.want_log = true;
     s.gp.property = O.property.c_str(); s.gp.thorough = O.thorough; s.gp.mode = O.mode;
-    RunResult r = run_one(s);
+    RunResult r = run_final(s);
     if (!same_class(r, cls, site)) return m;  // should not happen (determinism is gated separately)
     MVec<Dec> d(r.log.begin(), r.log.end());
     RunResult rr;
@@ -582,7 +633,8 @@ static int do_replay(const std::string& path, bool quiet) {
   if (rf.has_decs) s.decisions = &d;
   s.trace = O.trace;
   s.gp.property = O.property.c_str(); s.gp.mode = O.mode;
-  RunResult r = run_one(s);
+  g_prelude = rf.prelude;
+  RunResult r = run_final(s);
   printf("REPLAY status=%d class=%s site=%s hash=%llu expected_class=%s expected_hash=%llu\n", r.status, r.cls.c_str(), r.site.c_str(), (unsigned long long)r.hash, rf.cls.c_str(), (unsigned long long)rf.hash);
   if (!quiet) printf("message: %s\nsteps=%llu switches=%llu threads=%d vtime_ns=%lld\n", r.msg.c_str(), (unsigned long long)r.steps, (unsigned long long)r.switches, r.threads, (long long)r.vtime_ns);
   if (r.status == 1 && r.cls == rf.cls && r.site == rf.site) {
@@ -686,11 +738,20 @@ static int run_batch() {
   int rc = 0;
   int nviol = 0;
   if (!m.viol_index.empty()) {
-    std::sort(m.viol_index.begin(), m.viol_index.end());
-    uint64_t idx = m.viol_index[0];
+    size_t best = 0;
+    for (size_t i = 1; i < m.viol_index.size(); i++) if (m.viol_index[i] < m.viol_index[best]) best = i;
+    uint64_t idx = m.viol_index[best], pstart = m.viol_start[best];
     RunSpec s = spec_for_index(idx);
     s.want_plan = true;
-    RunResult a = run_one(s), b = run_one(s);
+    g_prelude.clear();
+    RunResult a = run_final(s), b = run_final(s);
+    if (!(a.status == 1 && b.status == 1 && a.hash == b.hash && a.cls == b.cls) && pstart < idx) {
+      // not reproducible in a pristine process: it depends on what the earlier
+      // runs of the same worker process left behind. Replay that prefix.
+      for (uint64_t i = pstart; i < idx; i++) g_prelude.push_back(mix64(O.seed, i));
+      a = run_final(s); b = run_final(s);
+      if (a.status == 1 && b.status == 1) printf("note: violation needs the state left by %zu earlier runs in the same process (prelude)\n", g_prelude.size());
+    }
     if (!(a.status == 1 && b.status == 1 && a.hash == b.hash && a.cls == b.cls)) {
       printf("INFRA nondeterministic run at index %llu (seed %llu): status %d/%d class %s/%s hash %llu/%llu — not reported as violation\n", (unsigned long long)idx, (unsigned long long)s.seed, a.status, b.status, a.cls.c_str(), b.cls.c_str(), (unsigned long long)a.hash, (unsigned long long)b.hash);
       rc = 2;
